@@ -4,6 +4,7 @@ import (
 	"crypto/md5"
 	"errors"
 	"fmt"
+	"math"
 	"sort"
 	"sync"
 	"time"
@@ -15,6 +16,11 @@ import (
 )
 
 var errIntervalZero = errors.New("aggregation interval must be greater than 0")
+var errDurationTooLarge = errors.New("aggregation interval and wait must fit in a time.Duration")
+
+// maxSeconds is the largest number of seconds a time.Duration can hold
+const maxSeconds = uint(math.MaxInt64 / int64(time.Second))
+
 var errNoRegex = errors.New("aggregation needs a regex")
 
 type Aggregator struct {
@@ -60,6 +66,11 @@ type msg struct {
 func New(fun string, matcher matcher.Matcher, outFmt string, cache bool, interval, wait uint, dropRaw bool, out chan []byte) (*Aggregator, error) {
 	if interval == 0 {
 		return nil, errIntervalZero
+	}
+	// interval and wait become time.Durations below: a number of seconds that does not fit would wrap around
+	// (to a zero tick period in the worst case)
+	if interval > maxSeconds || wait > maxSeconds {
+		return nil, errDurationTooLarge
 	}
 	ticker := clock.AlignedTick(time.Duration(interval)*time.Second, time.Duration(wait)*time.Second, 2)
 	return NewMocked(fun, matcher, outFmt, cache, interval, wait, dropRaw, out, 2000, time.Now, ticker)
